@@ -1083,4 +1083,162 @@ theorem reportOutcomeR_eff (g : Graph) (s : State) (w n : Nat) (uid st : String)
   · simp only [hp, Bool.false_eq_true, if_false]
     exact ⟨trivial, trivial, trivial, fun loc vs => ⟨Or.inl, fun h => h.elim id (fun h' => h'.1.elim)⟩⟩
 
+/-- the continuation after the awaited test proper on `n`, whose set states are sourced -/
+theorem continueAfter_sem (g : Graph) (H0 : List Nat) (hwf : GraphWF g) (hroot : (g.node g.root).flat = true)
+    {store0 : List (String × List (String × String))} (sc : SemCtx g store0) (w n : Nat) (dir : Dir) (fuel : Nat)
+    (s : State) (ok : Bool) (evs : List Event) (t : Trv g H0 s) (j : Sem g store0 s) (hr : ReadyAt g H0 s w n)
+    (hsrc : ∀ vs ∈ (g.node n).sets, Src g s n vs) :
+    Sem g store0 (resumeTest.continueAfter g w n .plain dir fuel s ok evs).1 ∧
+      ∀ e ∈ (resumeTest.continueAfter g w n .plain dir fuel s ok evs).2, e ∈ evs ∨ StartSem g H0 store0 w e := by
+  unfold resumeTest.continueAfter
+  have e1 : (Phase.plain == Phase.pre) = false := rfl
+  simp only [e1, Bool.false_and, Bool.false_eq_true, if_false]
+  have hn := hr.1
+  have hrel : relevant g w n = true := relevant_of_idIn hr.2.1
+  have hf : Upd g H0 w s (finishTraverse s n w) := upd_finishTraverse g H0 w s n hn hrel
+  have tf := t.upd sc.hO.uniq hf
+  have jf : Sem g store0 (finishTraverse s n w) := j.finish n w (fun _ _ => hsrc)
+  have hfin : ((finishTraverse s n w).nd n).finished = some w := by
+    unfold finishTraverse; rw [nd_setNd_eq s n _ (by rw [t.nodesLen]; exact hn)]
+  have hsn := sameNodes_vis g (finishTraverse s n w)
+  have hnr : NodeNR ((vis g (finishTraverse s n w)).node n) := by
+    have := sc.hy.noRemoval n hn
+    unfold NodeNR at this ⊢
+    rw [hsn.poolFilter, hsn.unsetMode]; exact this
+  have h3 := afterTraverse_ok g H0 (finishTraverse s n w).hidden ⟨hwf, hroot, tf.hidden⟩ w (finishTraverse s n w) n
+    ((s.wd w).path.getD ((s.wd w).path.length - 2) 0) dir (fun _ h => h) tf.nodesLen hn hrel (fun _ => hfin)
+  rw [← vis_eq_visH g (finishTraverse s n w)] at h3
+  have f3 := frame_afterTraverse (vis g (finishTraverse s n w)) (finishTraverse s n w) w n
+    ((s.wd w).path.getD ((s.wd w).path.length - 2) 0) dir hnr
+  have e3 := afterTraverse_plain (vis g (finishTraverse s n w)) (finishTraverse s n w) w n
+    ((s.wd w).path.getD ((s.wd w).path.length - 2) 0) dir hnr
+  rcases hat : afterTraverse (vis g (finishTraverse s n w)) (finishTraverse s n w) w n
+    ((s.wd w).path.getD ((s.wd w).path.length - 2) 0) dir with ⟨s2, e2, f⟩
+  rw [hat] at h3 f3 e3
+  have t2 : Trv g H0 s2 := tf.upd sc.hO.uniq h3.1
+  have j2 : Sem g store0 s2 := jf.frame f3
+  have hev : ∀ x ∈ evs ++ e2, x ∈ evs ∨ StartSem g H0 store0 w x := by
+    intro x hx
+    rcases List.mem_append.mp hx with hx | hx
+    · exact Or.inl hx
+    · exact Or.inr (StartSem.of_plain (e3 x hx))
+  have hloop : Sem g store0 (runLoop g w fuel s2 (evs ++ e2)).1 ∧
+      ∀ e ∈ (runLoop g w fuel s2 (evs ++ e2)).2, e ∈ evs ∨ StartSem g H0 store0 w e := by
+    obtain ⟨h4, h5⟩ := runLoop_sem g H0 hwf hroot sc w fuel s2 (evs ++ e2) t2 j2
+    refine ⟨h4, fun x hx => ?_⟩
+    rcases h5 x hx with hx | hx
+    · exact hev x hx
+    · exact Or.inr hx
+  cases f with
+  | raise what =>
+    dsimp only
+    refine ⟨j2.frame (frame_setWd s2 w _), fun x hx => ?_⟩
+    rcases List.mem_append.mp hx with hx | hx
+    · exact hev x hx
+    · rw [List.mem_singleton.mp hx]; exact Or.inr (StartSem.of_plain (plain_raise _ _))
+  | cont => exact hloop
+  | suspend => exact hloop
+  | exit => exact hloop
+
+theorem good_of_plain {g : Graph} (hy : SemHyp g) (hF : FlatClass g) {n : Nat} (hn : n < g.nodes.length)
+    (hf : (g.node n).flat = false) : good g n = true := by
+  unfold good goodClass
+  simp only [hn, decide_true, hf, Bool.not_false, Bool.true_and, List.all_eq_true, Bool.not_eq_true']
+  intro j hj
+  obtain ⟨hjl, hjc⟩ := (mem_classNodes g _ j).mp hj
+  have hfj : (g.node j).flat = false := by rw [hF j hjl n hn hjc]; exact hf
+  exact (hy.plainNodes j hjl hfj).2.2.2
+
+theorem reportOutcomeR_idle (g : Graph) (s : State) (w n : Nat) (ph : Phase) (uid : String) (wait : Nat) (out : Outcome)
+    (h : ¬ (wait = 0 ∧ ∃ st, out.status = some st)) : (reportOutcomeR g s w n ph uid wait out).1 = s := by
+  unfold reportOutcomeR
+  dsimp only
+  by_cases hw : wait = 0
+  · subst hw
+    cases hst : out.status with
+    | none => simp
+    | some st => exact absurd ⟨rfl, st, hst⟩ h
+  · have : (wait == 0) = false := by simpa using hw
+    simp [this]
+
+/-- the second half of `run_test_node` for a test proper, from a state with the bookkeeping and identifier invariants
+of C03 (`Basic`, `Uids`: the awaited test has not been reported yet, so the record read is the one reported now) -/
+theorem resumeTest_sem (g : Graph) (H0 : List Nat) (hwf : GraphWF g) (hroot : (g.node g.root).flat = true)
+    {store0 : List (String × List (String × String))} (sc : SemCtx g store0) (s : State) (w n : Nat) (dir : Dir)
+    (uid : String) (tag wait : Nat) (out : Outcome) (fuel : Nat) (b : Basic g s All) (u : Uids g s All)
+    (t : Trv g H0 s) (j : Sem g store0 s) (hpc : (s.wd w).pc = .test n .plain dir uid tag wait) :
+    Sem g store0 (resumeTest g s w n .plain dir uid tag wait out fuel).1 ∧
+      ∀ e ∈ (resumeTest g s w n .plain dir uid tag wait out fuel).2, StartSem g H0 store0 w e := by
+  have hr : ReadyAt g H0 s w n := t.pc w n .plain dir uid tag wait hpc
+  obtain ⟨hn, hid, hfl, _⟩ := hr
+  have ho : (g.node n).owner = some w := (sc.hO w n hn hfl).mp hid
+  have htag : 1 ≤ tag := (b.pcOK w n .plain dir uid tag wait trivial hpc).2.1
+  have hph : phOf (g.node n).name tag ∈ (s.nd n).results := (b.placeholder w n .plain dir uid tag wait trivial hpc).1 (by simp)
+  have hunrep := u.unreported w n dir uid tag wait trivial hpc (good_of_plain sc.hy sc.hF hn hfl)
+  have hnone : s.jobResults.find? (fun r => r.1 == (g.node n).name && r.2.1 == uid) = none := by
+    rw [List.find?_eq_none]
+    intro x hx hp
+    simp only [Bool.and_eq_true, beq_iff_eq] at hp
+    apply hunrep
+    unfold keys
+    exact List.mem_map.mpr ⟨x, hx, by rw [hp.1, hp.2]⟩
+  rw [resumeTest_eqR]
+  have e1 : (Phase.plain == Phase.pre) = false := rfl
+  simp only [e1, Bool.false_eq_true, if_false]
+  obtain ⟨ha, hea⟩ := reportOutcomeR_ok g H0 s w n .plain uid wait out
+  -- the continuation, from a state `sb` that `w` produced and in which the set states of `n` are sourced
+  have hcont : ∀ sb ok, Upd g H0 w s sb → Sem g store0 sb → (∀ vs ∈ (g.node n).sets, Src g sb n vs) →
+      Sem g store0 (resumeTest.continueAfter g w n .plain dir fuel sb ok (reportOutcomeR g s w n .plain uid wait out).2).1 ∧
+      ∀ e ∈ (resumeTest.continueAfter g w n .plain dir fuel sb ok (reportOutcomeR g s w n .plain uid wait out).2).2,
+        StartSem g H0 store0 w e := by
+    intro sb ok hb jb hsrc
+    obtain ⟨h1, h2⟩ := continueAfter_sem g H0 hwf hroot sc w n dir fuel sb ok (reportOutcomeR g s w n .plain uid wait out).2
+      (t.upd sc.hO.uniq hb) jb ((t.pc w n .plain dir uid tag wait hpc).mono hb.hidden hb.monoS) hsrc
+    refine ⟨h1, fun e he => ?_⟩
+    rcases h2 e he with he | he
+    · exact StartSem.of_plain (hea e he)
+    · exact he
+  by_cases hrep : wait = 0 ∧ ∃ st, out.status = some st
+  · -- reported now: the record found is the one just appended
+    obtain ⟨hw0, st, hst⟩ := hrep
+    subst hw0
+    obtain ⟨ost, odur⟩ := out
+    simp only at hst
+    subst hst
+    obtain ⟨hnodes, _, hjob, hstore⟩ := reportOutcomeR_eff g s w n uid st odur
+    have hfind : (reportOutcomeR g s w n .plain uid 0 ⟨some st, odur⟩).1.jobResults.find?
+        (fun r => r.1 == (g.node n).name && r.2.1 == uid) = some ((g.node n).name, uid, st, odur) := by
+      rw [hjob, List.find?_append, hnone]
+      simp
+    rw [hfind]
+    dsimp only
+    have hnd : ∀ m, (reportOutcomeR g s w n .plain uid 0 ⟨some st, odur⟩).1.nd m = s.nd m := fun m => by
+      unfold State.nd; rw [hnodes]
+    obtain ⟨res, hname, hrtag, hpass, hst2, _, hfin2, hres2, hresn2⟩ :=
+      recordResultR_eff (reportOutcomeR g s w n .plain uid 0 ⟨some st, odur⟩).1 w n (g.node n).name uid tag st odur
+        (by rw [hnodes, b.nodesLen]; exact hn)
+    have hb : Upd g H0 w s (recordResultR (reportOutcomeR g s w n .plain uid 0 ⟨some st, odur⟩).1 w n .plain
+        (g.node n).name uid tag st odur).1 := ha.trans (upd_recordResultR g H0 _ w n .plain _ uid tag st odur)
+    obtain ⟨jb, hsrc⟩ := Sem.record sc j w n tag res ((st == "PASS" || st == "WARN") = true) hn hfl ho htag
+      (fun loc vs => by rw [hst2]; exact hstore loc vs)
+      (fun m => by rw [hfin2, hnd]) (fun m hm => by rw [hres2 m hm, hnd]) (by rw [hresn2, hnd]) hname hrtag
+      (fun h => by rw [hpass h]; rfl)
+    exact hcont _ _ hb jb hsrc
+  · -- nothing reported now: no record, the placeholder stays
+    have hsa : (reportOutcomeR g s w n .plain uid wait out).1 = s := reportOutcomeR_idle g s w n .plain uid wait out hrep
+    rw [hsa, hnone]
+    dsimp only
+    have hwait : Sem g store0 (s.setWd w (fun d => { d with pc := .test n .plain dir uid tag (wait + 1) })) ∧
+        ∀ e ∈ (reportOutcomeR g s w n .plain uid wait out).2 ++ [Event.sleep (g.worker w).id 3000], StartSem g H0 store0 w e := by
+      refine ⟨j.frame (frame_setWd s w _), fun e he => ?_⟩
+      rcases List.mem_append.mp he with he | he
+      · exact StartSem.of_plain (hea e he)
+      · rw [List.mem_singleton.mp he]; exact StartSem.of_plain (plain_sleep _ _)
+    split
+    · exact hwait
+    · split
+      · exact hwait
+      · refine hcont s false (Upd.refl g H0 w s) j (fun vs _ => ?_)
+        exact Or.inr (Or.inr ⟨phOf (g.node n).name tag, mem_sharedResults g s n n _ hn hfl rfl hph, by show "UNKNOWN" ≠ "PASS"; decide⟩)
+
 end I2N.Trav
